@@ -10,25 +10,28 @@
 (* Sound (C02's model theorem: the typing rules are sound w.r.t. the       *)
 (* semantics) is checked as an invariant on every generated tree.          *)
 (***************************************************************************)
-EXTENDS RSEval, SequencesExt, Json
+EXTENDS RSEval, RSSyntax, SequencesExt, Json
+CONSTANTS WrapSet    \* "all": stage 2 wraps with every leaf of D0; "few": with X1 and S1 only (quick tier)
 VARIABLES c, stage
 
 TX1 == TBase("X1")
 G == [X1 |-> TBool(TX1), S1 |-> TBool(TTuple(<<TX1, TX1>>)), S2 |-> TBool(TBool(TX1)), C1 |-> TBool(TBase("C1")),
-      F1 |-> TBool(TBool(TX1)), F2 |-> TBool(TRad("R1")), F3 |-> TBool(TX1), P1 |-> TLogic]
+      F1 |-> TBool(TBool(TX1)), F2 |-> TBool(TRad("R1")), F3 |-> TBool(TX1), F4 |-> TBool(TX1), P1 |-> TLogic, A1 |-> TLogic]
 F == [F1 |-> [args |-> <<[name |-> "a", type |-> TBool(TX1)]>>],
       F2 |-> [args |-> <<[name |-> "a", type |-> TBool(TRad("R1"))], [name |-> "b", type |-> TRad("R1")]>>],
       F3 |-> [args |-> <<[name |-> "a", type |-> TBool(TX1)]>>],
+      F4 |-> [args |-> <<[name |-> "a", type |-> TBool(TX1)], [name |-> "b", type |-> TBool(TX1)]>>],
       P1 |-> [args |-> <<[name |-> "a", type |-> TBool(TX1)]>>]]
 La == Loc("a")  Lb == Loc("b")  Lc == Loc("c")
 FD == [F1 |-> [args |-> <<"a">>, body |-> Node("ENUM", <<La>>)],
        F2 |-> [args |-> <<"a", "b">>, body |-> Node("UNION", <<La, Node("ENUM", <<Lb>>)>>)],
        F3 |-> [args |-> <<"a">>, body |-> Node("DECLARATIVE", <<Lb, La, Node("EXISTS", <<Lc, La, Node("NOTEQUAL", <<Lc, Lb>>)>>)>>)],
+       F4 |-> [args |-> <<"a", "b">>, body |-> Node("DECLARATIVE", <<Lc, La, Node("EXISTS", <<Loc("d"), Lb, Node("EQUAL", <<Loc("d"), Lc>>)>>)>>)],
        P1 |-> [args |-> <<"a">>, body |-> Node("EQUAL", <<La, Glob("X1")>>)]]
 Interps == <<
-  [X1 |-> {1,2}, S1 |-> {<<1,1>>, <<1,2>>}, S2 |-> {{}, {1}}, C1 |-> {1,2,3}],
-  [X1 |-> {1},   S1 |-> {},                 S2 |-> {{1}},     C1 |-> {1,2}],
-  [X1 |-> {1,2,3}, S1 |-> {<<2,1>>, <<3,3>>, <<1,2>>}, S2 |-> {{1,2}, {2,3}, {3}}, C1 |-> {1}] >>
+  [X1 |-> {1,2}, S1 |-> {<<1,1>>, <<1,2>>}, S2 |-> {{}, {1}}, C1 |-> {1,2,3}, A1 |-> TRUE],
+  [X1 |-> {1},   S1 |-> {},                 S2 |-> {{1}},     C1 |-> {1,2}, A1 |-> TRUE],
+  [X1 |-> {1,2,3}, S1 |-> {<<2,1>>, <<3,3>>, <<1,2>>}, S2 |-> {{1,2}, {2,3}, {3}}, C1 |-> {1}, A1 |-> TRUE] >>
 
 RECURSIVE EncU(_, _)
 \* wire encoding with sets in arbitrary order (the harness canonicalises)
@@ -81,11 +84,37 @@ SeedBind == {Node(q, <<TupAB, d, p>>) : q \in Quant \cup {"DECLARATIVE"}, d \in 
        \cup {Node(q, <<La, d, Node("EXISTS", <<La, d, Node("EQUAL", <<La, La>>)>>)>>) : q \in Quant, d \in {Glob("X1")}}
        \cup {Node("AND", <<Node("FORALL", <<La, Glob("X1"), Node("EQUAL", <<La, La>>)>>), Node("EQUAL", <<La, Glob("X1")>>)>>),
              Node("AND", <<Node("FORALL", <<La, Glob("X1"), Node("EQUAL", <<La, La>>)>>), Node("EXISTS", <<La, Glob("S2"), Node("EQUAL", <<La, La>>)>>)>>)}
-Args == D0 \cup {One, Node("BOOLEAN", <<Glob("X1")>>), Node("ENUM", <<Glob("X1")>>), Node("PLUS", <<IntLit(1), IntLit(1)>>), Call("F1", <<Glob("X1")>>), Call("F3", <<Glob("X1")>>)}
+Args == D0 \cup {Node("ENUM", <<Empty>>), One, Node("BOOLEAN", <<Glob("X1")>>), Node("ENUM", <<Glob("X1")>>), Node("PLUS", <<IntLit(1), IntLit(1)>>), Call("F1", <<Glob("X1")>>), Call("F3", <<Glob("X1")>>)}
 SeedCall == {Call(f, <<x>>) : f \in {"F1", "F3", "P1", "F2", "F9"}, x \in Args}
        \cup {Call(f, <<x, y>>) : f \in {"F2", "F1"}, x \in Args, y \in Args}
        \cup {Glob("F1"), Glob("P1"), Glob("D7")}
-Seeds == UNION {SeedFilter, SeedRec, SeedImp, SeedBind, SeedCall}
+       \* nested calls of functions whose bodies use the same local names (argument substitution must be capture-free)
+       \cup {Call("F4", <<x, Call("F4", <<y, z>>)>>) : x \in {Glob("X1"), One}, y \in {Glob("X1"), One}, z \in {Glob("X1"), One}}
+       \cup {Call("F4", <<Call("F4", <<y, z>>), x>>) : x \in {Glob("X1"), One}, y \in {Glob("X1"), One}, z \in {Glob("X1"), One}}
+       \cup {Call("F3", <<Call("F4", <<Glob("X1"), Call("F3", <<Glob("X1")>>)>>)>>), Call("F4", <<Call("F3", <<Glob("X1")>>), Call("F3", <<Glob("X1")>>)>>),
+             Call("F2", <<Call("F2", <<Glob("X1"), IntLit(1)>>), Node("DEBOOL", <<Call("F2", <<Empty, IntLit(1)>>)>>)>>),
+             Call("F2", <<Call("F1", <<Glob("X1")>>), Call("F4", <<Glob("X1"), Glob("X1")>>)>>)}
+\* scope discipline: a bound name used after its scope ended, and names re-declared at another nesting depth
+Lab == Loc("ab")  Lbc == Loc("bc")
+AllA(body) == Node("FORALL", <<La, Glob("X1"), body>>)
+AllB(body) == Node("FORALL", <<Lb, Glob("X1"), body>>)
+EqAB == Node("EQUAL", <<La, Lb>>)
+SeedScope == {Node("AND", <<AllA(Node("EQUAL", <<La, La>>)), AllB(Node("AND", <<AllA(EqAB), EqAB>>))>>),
+              Node("AND", <<AllB(AllA(EqAB)), AllA(AllB(EqAB))>>),
+              Node("AND", <<AllA(AllB(EqAB)), AllB(AllA(AllB(EqAB)))>>),
+              AllA(AllB(AllA(EqAB))), Node("AND", <<AllA(Node("EQUAL", <<La, La>>)), Node("EQUAL", <<La, La>>)>>),
+              Node("OR", <<AllA(AllB(EqAB)), AllA(Node("NOT", <<AllB(EqAB)>>))>>),
+              \* tuple binders whose concatenated names coincide: (ab, c) inside (a, bc)
+              Node("DECLARATIVE", <<Node("TUPLEDECL", <<Lab, Lc>>), X1xX1,
+                    Node("EXISTS", <<Node("TUPLEDECL", <<La, Lbc>>), X1xX1,
+                          Node("AND", <<Node("AND", <<Node("EQUAL", <<Lab, La>>), Node("NOTEQUAL", <<Lc, Lbc>>)>>), Node("NOTEQUAL", <<Lab, Lc>>)>>)>>)>>)}
+\* a LOGIC-typed global (axiom A1) has no admissible use as an operand
+SeedAxiom == {Node("NOT", <<Node("EQUAL", <<Glob("A1"), Glob("A1")>>)>>), Node("TUPLE", <<Glob("A1"), Glob("X1")>>)}
+        \cup {Node(o, <<Glob("A1"), x>>) : o \in SetBinLike \cup Preds, x \in {Glob("X1"), IntLit(1)}}
+        \cup {Node(o, <<x, Glob("A1")>>) : o \in SetBinLike \cup Preds, x \in {Glob("X1"), IntLit(1)}}
+        \cup {Node(o, <<Glob("A1")>>) : o \in Un} \cup {Node("ENUM", <<Glob("A1")>>), Call("F1", <<Glob("A1")>>)}
+        \cup {Node("FORALL", <<La, Glob("A1"), Node("EQUAL", <<La, La>>)>>), Node("DECLARATIVE", <<La, Glob("X1"), Node("IN", <<La, Glob("A1")>>)>>)}
+Seeds == UNION {SeedFilter, SeedRec, SeedImp, SeedBind, SeedCall, SeedScope, SeedAxiom}
 
 NoLoc == [x \in {} |-> TAny]
 NoVal == [x \in {} |-> 0]
@@ -93,6 +122,7 @@ Outcome(r, t) == IF r.ok THEN [ok |-> TRUE, v |-> EncU(r.v, t), why |-> ""] ELSE
 Case(e) == LET t == TypeOf(e, G, F, NoLoc, FALSE) IN
   [e |-> e, ty |-> IF IsBad(t) THEN "BAD:" \o t.id ELSE TypeStr(t),
    vals  |-> IF IsBad(t) THEN <<>> ELSE [i \in 1..Len(Interps) |-> Outcome(Eval(e, Interps[i], FD, NoVal), t)],
+   r0 |-> Render(e, FALSE), r1 |-> Render(e, TRUE),
    kvals |-> IF IsBad(t) THEN <<>> ELSE [i \in 1..Len(Interps) |-> Outcome(EvalK(e, Interps[i], FD, NoVal), t)]]
 
 Init == /\ stage = 1
@@ -103,14 +133,15 @@ Init == /\ stage = 1
            \/ \E x \in D0 : c = Node("ENUM", <<x>>)
            \/ \E o \in SetBinLike \cup Preds, x \in D0, y \in D0 : c = Node(o, <<x, y>>)
            \/ \E q \in Quant \cup {"DECLARATIVE"}, d \in D0, b \in A1log : c = Node(q, <<La, d, b>>)
-Next == /\ stage = 1 /\ stage' = 2
+Next == /\ stage = 1 /\ stage' = 2 /\ WrapSet # "none"
         /\ IF IsLogic(c)
            THEN \/ c' = Node("NOT", <<c>>) /\ c.id \notin Quant \cup {"NOT"}
                 \/ \E o \in LogBin, q \in SmallLog : c' = Node(o, <<c, q>>) \/ c' = Node(o, <<q, c>>)
            ELSE \/ \E o \in Un : c' = Node(o, <<c>>)
                 \/ \E o \in {"BIGPR", "SMALLPR"}, ix \in Ixs : c' = Idx(o, ix, <<c>>)
                 \/ c' = Node("ENUM", <<c>>)
-                \/ \E o \in SetBinLike \cup Preds, x \in D0 : c' = Node(o, <<c, x>>) \/ c' = Node(o, <<x, c>>)
+                \/ \E o \in SetBinLike \cup Preds, x \in (IF WrapSet = "all" THEN D0 ELSE {Glob("X1"), Glob("S1"), Glob("S2")}) :
+                        c' = Node(o, <<c, x>>) \/ c' = Node(o, <<x, c>>)
                 \/ \E q \in Quant \cup {"DECLARATIVE"}, b \in A1log : c' = Node(q, <<La, c, b>>)
                 \/ \E f \in {"F1", "F2", "F3", "P1"} : c' = Call(f, <<c>>) \/ c' = Call(f, <<c, Glob("X1")>>)
 Spec == Init /\ [][Next]_<<c, stage>>
